@@ -50,6 +50,10 @@ def _case(draw):
         cfg["max_calc_step_size_feet"] = draw(st.sampled_from([0.5, 0.5, 1.0, 2.0]))
         step = R / draw(st.floats(1.0, 30.0))
     case = {"cls": cls, "shot": spec, "R": R, "step": step, "ts": draw(st.sampled_from([0.0, 0.0, 0.02, 0.2])), "config": cfg}
+    if cls == "transonic" and draw(st.integers(0, 3)) == 0:
+        # launch a hair above the local speed of sound, so that the sonic crossing happens inside the first integration steps
+        # (the muzzle speed is set by the check to (1 + excess) x the station's speed of sound: input placement, not an oracle)
+        case["launch_mach_excess"] = draw(st.sampled_from([1e-6, 1e-5, 3e-5, 1e-4, 3e-4, 1e-3]))
     if cls == "range-at-event":
         # the requested range is placed inside the step in which one of the shot's events happens (decided by the check from
         # a preliminary trace of the same shot: a deterministic function of the case)
@@ -87,6 +91,10 @@ def check(case):
     r = Res()
     spec, cfg = case["shot"], case["config"]
     r.label("class:" + case["cls"])
+    if case.get("launch_mach_excess"):
+        c_station = build.atmo(spec).mach >> pb.Velocity.FPS
+        spec = dict(spec, mv=c_station * (1.0 + case["launch_mach_excess"]), powder=None)
+        r.label("launch-just-above-mach-1")
     look = spec.get("look", 0.0)
     sh_ft = spec.get("sh", 0.0) / 12.0
     y0 = -math.cos(spec.get("cant", 0.0)) * sh_ft
